@@ -39,7 +39,7 @@ def sessions_for(exe, tier, seed):
 
     def fs(live, rng):
         rb = rng.choice([1024, 2048, 4096, 8192, 30000, 61440])
-        return P.c09_stall_session(live, rng, rng.choice([2000, 8000, 14000, 16000, 20000, 25000, 28000]),
+        return P.c09_stall_session(live, rng, rng.choice([2000, 8000, 14000, 16000, 20000, 25000, 28000, 28000, 36000, 45000]),
                                    params=dict(rcvbuf_r=rb, rcvbuf_l=rng.choice([4096, 61440]), finack_l=1, finack_r=1,
                                                sndbuf_l=rng.choice([4096, 65536, 1 << 20])))
     H = H + P.gen_parallel(exe, [f"C09/s/{base + i}" for i in range(ns)], fs)
